@@ -34,6 +34,7 @@ func baseFields(extra ...gq.FieldDesc) []gq.FieldDesc {
 		{Name: "n", Type: "Int", Args: []gq.ArgDesc{}},
 		{Name: "s", Type: "String", Args: []gq.ArgDesc{}},
 		{Name: "k", Type: "Int", Args: []gq.ArgDesc{{Name: "x", Type: "Int"}}},
+		{Name: "r", Type: "Int", Args: []gq.ArgDesc{{Name: "x", Type: "Int!"}}},
 		{Name: "c", Type: "I", Args: []gq.ArgDesc{}},
 		{Name: "l", Type: "[I]", Args: []gq.ArgDesc{}},
 	}
@@ -61,7 +62,7 @@ var pool = []string{
 	"... on A { x: n }", "... on B { x: s }", "... on A { x: a }", "... on B { x: b }",
 	"... on A { c { x: n } }", "... on B { c { x: s } }",
 	"x: __typename",
-	"k(x: $v)", "x: k(x: $w)", "c { k(x: $v) }", "y: k(x: $u)",
+	"k(x: $v)", "x: k(x: $w)", "c { k(x: $v) }", "y: k(x: $u)", "r(x: $v)", "... on A { z: r(x: $w) }", "n @skip(if: $v)",
 }
 
 // variable definitions of an operation (the pool uses $v, $w, $u; k's argument is an Int)
@@ -232,12 +233,12 @@ type modelResp struct {
 		M errLocs `json:"M"`
 		S errLocs `json:"S"`
 	} `json:"unused"`
-	UndefVar  msPair `json:"undefVar"`
-	UnusedVar msPair `json:"unusedVar"`
-	VarPos    msPair `json:"varPos"`
-	UniqueFragNames bool `json:"uniqueFragNames"`
-	LocsDistinct    bool `json:"locsDistinct"`
-	Coherent        bool `json:"coherent"`
+	UndefVar        msPair `json:"undefVar"`
+	UnusedVar       msPair `json:"unusedVar"`
+	VarPos          msPair `json:"varPos"`
+	UniqueFragNames bool   `json:"uniqueFragNames"`
+	LocsDistinct    bool   `json:"locsDistinct"`
+	Coherent        bool   `json:"coherent"`
 	Bounds          struct {
 		Sets        uint64 `json:"sets"`
 		SpreadNames uint64 `json:"spreadNames"`
@@ -489,8 +490,8 @@ func main() {
 	acyclicBoost := 8
 	if run.Thorough() {
 		maxN = 4
-		perTopo = map[int]int{1: 200, 2: 100, 3: 40, 4: 3}
-		acyclicBoost = 20
+		perTopo = map[int]int{1: 200, 2: 100, 3: 40, 4: 2}
+		acyclicBoost = 15
 	}
 	idx := 0
 	for n := 1; n <= maxN; n++ {
